@@ -113,6 +113,8 @@ def build_harness(name, pkgs, test_pkg, harness_files, instrument=True, adds=Non
     ov = os.path.join(work, "overlay.json")
     json.dump({"Replace": overlay}, open(ov, "w"), indent=1)
     out = os.path.join(work, "h.test")
+    if os.path.exists(out):
+        os.remove(out)  # never run a stale binary if the build fails
     cmd = ["go", "test", "-c", "-overlay", ov, "-modfile", mf, "-vet=off", "-ldflags=-checklinkname=0",
            "-o", out]
     if race:
